@@ -3,8 +3,9 @@
 Oracle: no exception out of shex_graph (ShExC and SHACL) / profile_graph."""
 import random
 
-from vp import pipeprops, pipe
+from vp import pipeprops, pipe, pipemap
 
+pipemap.install()      # shape-map runs (cfg["smap"]) go through Model.RunMap / Shaper(shape_map_raw=...)
 T = pipe.RDF_TYPE
 
 
@@ -40,7 +41,9 @@ class Spec(pipeprops.PropSpec):
             "classes; thresholds between the reference and the plain kinds; nodes without outgoing triples; "
             "one-instance classes; language-tagged literals) x random accepted configurations (all 2^6 switch "
             "assignments, OR on/off, target modes, caps) x {shex_graph ShExC to string and file, shex_graph SHACL, profile_graph to string and file}; "
-            "non-trivial = some class with >= 2 instances and some non-typing triple")
+            "non-trivial = some class with >= 2 instances and some non-typing triple; plus the shape-map stream "
+            "(vp.pipemap: node / FOCUS / SPARQL selectors, labels full and prefixed, nodes without triples, "
+            "reference chains, all_classes_mode + shape map, remove_empty on/off, OR on/off, model-corresponded)")
 
     def gen_cases(self, tier, rnd):
         n = 40000 if tier == "thorough" else 2000
@@ -64,6 +67,7 @@ class Spec(pipeprops.PropSpec):
             if i % 8 == 1:
                 runs.append((ts, cfg, "shexc_file"))
             cases.append({"runs": runs, "meta": {}})
+        cases += pipemap.stream(tier, rnd, 1500, 12000, or_rate=0.5)
         return cases
 
     def oracle(self, case, impl):
